@@ -280,9 +280,9 @@ fn c16_strings(cfg: &Cfg) -> Sink {
 }
 pub fn c16(cfg: &Cfg) -> i32 {
     let mut sink = c16_strings(cfg);
-    let mut rep = report("strings_judged", "W10: the value spaces completely (263 actions, 64 squares with all conversions, 6 pieces, 4 directions, 20k bitboards for map_bit_board_to_squares); every string of length 0..4 over a 42-symbol hostile alphabet (3 187 591 strings; includes characters equal to valid symbols modulo 256) and every printable-ASCII string of length 0..3 (866 496), each fed to the Action, Square, Piece and Direction parsers and compared with a reference grammar; random longer strings and one-edit near-misses of valid actions. Run in the monitor profile and again in a plain release child. distinct_nontrivial = distinct random/near-miss strings (the exhaustive part is distinct by construction and reported separately).", vec![floor("strings_judged", 4_000_000, 4_000_000), floor("exhaustive_hostile_alphabet_len_le_4", 3_187_591, 3_187_591), floor("exhaustive_printable_ascii_len_le_3", 866_496, 866_496), floor("values_judged", 337, 337), floor("action_accepted", 300, 300), floor("random_strings", 500_000, 50_000_000)], &["the reference grammar in model.rs (parse_*_ref) is the statement of the notation"]);
+    let mut rep = report("strings_judged", "W10: the value spaces completely (263 actions, 64 squares with all conversions, 6 pieces, 4 directions, 20k bitboards for map_bit_board_to_squares); every string of length 0..4 over a 45-symbol hostile alphabet (4 193 821 strings; includes characters equal to valid symbols modulo 256) and every printable-ASCII string of length 0..3 (866 496), each fed to the Action, Square, Piece and Direction parsers and compared with a reference grammar; random longer strings and one-edit near-misses of valid actions. Run in the monitor profile and again in a plain release child. distinct_nontrivial = distinct random/near-miss strings (the exhaustive part is distinct by construction and reported separately).", vec![floor("strings_judged", 5_000_000, 5_000_000), floor("exhaustive_hostile_alphabet_len_le_4", 4_193_821, 4_193_821), floor("exhaustive_printable_ascii_len_le_3", 866_496, 866_496), floor("values_judged", 337, 337), floor("action_accepted", 300, 300), floor("random_strings", 500_000, 50_000_000)], &["the reference grammar in model.rs (parse_*_ref) is the statement of the notation"]);
     rep.exhaustive = Some(false);
-    rep.extra.insert("exhaustive_parts".into(), json!("all strings of length <= 4 over the 42-symbol alphabet; all printable-ASCII strings of length <= 3; all 263 + 64 + 6 + 4 values"));
+    rep.extra.insert("exhaustive_parts".into(), json!("all strings of length <= 4 over the 45-symbol alphabet; all printable-ASCII strings of length <= 3; all 263 + 64 + 6 + 4 values"));
     match run_plain_child(cfg, "C16-strings") {
         Ok(child) => {
             absorb_child(&mut sink, &child, "C16");
@@ -346,31 +346,55 @@ fn c17_base(b: &MBoard, gold: bool, step: u8, pend: Pend, base_name: &str, sink:
         sink.add("pairs_compared", n * (n.saturating_sub(1)) / 2);
         sink.add("hash_evaluations", n);
     };
-    // contents of each square (13 contents -> 78 pairs per square)
+    // contents of each square (13 contents -> 78 pairs per square), in the base's context and in a
+    // random (side, step, status) context per square (interactions between board and context)
+    let statuses = all_statuses();
+    let mut lcg = crate::model::fnv(b.compact().as_bytes()) | 1;
+    let mut next = move || {
+        lcg = lcg.wrapping_mul(6364136223846793005).wrapping_add(1442695040888963407);
+        (lcg >> 33) as usize
+    };
     for sq in 0..64usize {
-        let mut v = vec![];
-        for c in 0..13u8 {
-            let mut nb_ = *b;
-            nb_.0[sq] = c;
-            v.push((format!("{}={}", sq_text(sq), if c == 0 { '.' } else { cell_char(c) }), c17_hash(&nb_, gold, step, pend)));
+        for ctx in 0..2 {
+            let (g2, st2, p2) = if ctx == 0 { (gold, step, pend) } else { (next() % 2 == 0, (next() % 4) as u8, statuses[next() % statuses.len()]) };
+            let mut v = vec![];
+            for c in 0..13u8 {
+                let mut nb_ = *b;
+                nb_.0[sq] = c;
+                v.push((format!("{}={}", sq_text(sq), if c == 0 { '.' } else { cell_char(c) }), c17_hash(&nb_, g2, st2, p2)));
+            }
+            family(&format!("square_content:{} in context side={} step={} status={:?}", sq_text(sq), if g2 { 'g' } else { 's' }, st2, p2), v, sink);
         }
-        family(&format!("square_content:{}", sq_text(sq)), v, sink);
     }
     // one piece of each kind on any of the squares that are empty in the base
     for c in 1..13u8 {
-        let mut v = vec![];
-        for sq in 0..64usize {
-            if b.0[sq] == 0 {
-                let mut nb_ = *b;
-                nb_.0[sq] = c;
-                v.push((format!("{}@{}", cell_char(c), sq_text(sq)), c17_hash(&nb_, gold, step, pend)));
+        for ctx in 0..2 {
+            let (g2, st2, p2) = if ctx == 0 { (gold, step, pend) } else { (next() % 2 == 0, (next() % 4) as u8, statuses[next() % statuses.len()]) };
+            let mut v = vec![];
+            for sq in 0..64usize {
+                if b.0[sq] == 0 {
+                    let mut nb_ = *b;
+                    nb_.0[sq] = c;
+                    v.push((format!("{}@{}", cell_char(c), sq_text(sq)), c17_hash(&nb_, g2, st2, p2)));
+                }
             }
+            family(&format!("piece_location:{} in context side={} step={} status={:?}", cell_char(c), if g2 { 'g' } else { 's' }, st2, p2), v, sink);
         }
-        family(&format!("piece_location:{}", cell_char(c)), v, sink);
     }
-    family("side", vec![("gold".into(), c17_hash(b, true, step, pend)), ("silver".into(), c17_hash(b, false, step, pend))], sink);
-    family("step", (0..4u8).map(|k| (format!("step{}", k), c17_hash(b, gold, k, pend))).collect(), sink);
-    family("status", all_statuses().into_iter().map(|p| (format!("{:?}", p), c17_hash(b, gold, step, p))).collect(), sink);
+    // side / step / status: every one-feature change in EVERY context of the other two
+    for st in 0..4u8 {
+        for p in &statuses {
+            family(&format!("side: at step={} status={:?}", st, p), vec![("gold".into(), c17_hash(b, true, st, *p)), ("silver".into(), c17_hash(b, false, st, *p))], sink);
+        }
+    }
+    for g in [true, false] {
+        for p in &statuses {
+            family(&format!("step: at side={} status={:?}", if g { 'g' } else { 's' }, p), (0..4u8).map(|k| (format!("step{}", k), c17_hash(b, g, k, *p))).collect(), sink);
+        }
+        for st in 0..4u8 {
+            family(&format!("status: at side={} step={}", if g { 'g' } else { 's' }, st), statuses.iter().map(|p| (format!("{:?}", p), c17_hash(b, g, st, *p))).collect(), sink);
+        }
+    }
     sink.count("bases");
 }
 pub fn c17(cfg: &Cfg) -> i32 {
@@ -392,7 +416,7 @@ pub fn c17(cfg: &Cfg) -> i32 {
             k += cfg.workers as u64;
         }
     });
-    let mut rep = report("pairs_compared", "W11: for each base state (empty board, opening array, random legal positions with random side / step / status) the finite space of one-feature changes is enumerated completely: all 13 contents of each of the 64 squares, each of the 12 piece kinds on every square empty in the base, both sides, all 4 step numbers, all 641 push/pull statuses; states are built with GameState::new / PlayPhase::new and all hashes within a family must be pairwise distinct. distinct_nontrivial = distinct hash values seen.", vec![floor("bases", 30, 1000), floor("pairs_status", 205_120 * 30, 205_120 * 1000), floor("pairs_square_content", 64 * 78 * 30, 64 * 78 * 1000), floor("pairs_step", 6 * 30, 6 * 1000), floor("pairs_side", 30, 1000)], &["states are built with the public constructors, as the property says"]);
+    let mut rep = report("pairs_compared", "W11: for each base state (empty board, opening array, random legal positions with random side / step / status) the finite space of one-feature changes is enumerated completely: all 13 contents of each of the 64 squares and each of the 12 piece kinds on every square empty in the base (in the base's own context and in a random side/step/status context per family), and side, step and status each varied in every combination of the other two (2 564 + 1 282 + 8 families per base); states are built with GameState::new / PlayPhase::new and all hashes within a family must be pairwise distinct. distinct_nontrivial = distinct hash values seen.", vec![floor("bases", 30, 1000), floor("pairs_status", 8 * 205_120 * 30, 8 * 205_120 * 1000), floor("pairs_square_content", 2 * 64 * 78 * 30, 2 * 64 * 78 * 1000), floor("pairs_step", 6 * 1282 * 30, 6 * 1282 * 1000), floor("pairs_side", 2564 * 30, 2564 * 1000)], &["states are built with the public constructors, as the property says"]);
     rep.exhaustive = Some(true);
     rep.extra.insert("exhaustive_scope".into(), json!("per base state, the space of one-feature changes named in the property is enumerated completely; the bases themselves are sampled"));
     conclude(cfg, sink, rep)
